@@ -270,6 +270,7 @@ struct State {
     model: Option<Model<'static>>,
     last_cmp: bool,
     log: Rc<EvalLog>,
+    optimizers: Vec<(u64, GradientDescent)>,
 }
 
 impl State {
@@ -350,6 +351,7 @@ fn main() {
         model: None,
         last_cmp: false,
         log: Rc::new(EvalLog { entries: RefCell::new(vec![]), budget: Cell::new(0) }),
+        optimizers: vec![],
     };
     for line in f.lines() {
         let line = line.unwrap();
@@ -414,6 +416,7 @@ fn run_step(st: &mut State, step: &Value) -> Value {
             st.model = None;
             st.hs.clear();
             st.layers.clear();
+            st.optimizers.clear();
             st.last_cmp = false;
         }
         // ---- construction
@@ -613,8 +616,13 @@ fn run_step(st: &mut State, step: &Value) -> Value {
             with_grads = true;
             let lr = scalar_in(&step["lr"]);
             let mut taken: Vec<(i64, Array)> = args.iter().map(|a| (*a, st.hs.remove(a).unwrap())).collect();
+            // one optimizer object per learning rate and case, reused by later updates (as a training loop does)
+            let key = lr.to_bits() as u64;
+            if !st.optimizers.iter().any(|(k, _)| *k == key) {
+                st.optimizers.push((key, GradientDescent::new(lr)));
+            }
+            let gd = &st.optimizers.iter().find(|(k, _)| *k == key).unwrap().1;
             guarded!({
-                let gd = GradientDescent::new(lr);
                 gd.update(taken.iter_mut().map(|(_, a)| a).collect());
             });
             ev.insert("newp".into(), Value::Array(taken.iter().map(|(_, a)| tensor_out(a)).collect()));
